@@ -159,6 +159,36 @@ def _parsers_readonly(ctx):
                             detail_bad=f"`{norm(n)}` seeds {tgt[5:]} from the tract's {sorted(cross)}: every re-parse copies "
                                        f"entries of another list in again, so the lists grow and get out of step",
                             key=f"COMMIT|TractParser|cross-seed|{tgt[5:]}", where=common.loc(m, n))
+    # seeding through a loop: for a in <names>: setattr(self, a, getattr(parent, a)...)
+    for m in ci.methods.values():
+        for lp in walk_local(m.node):
+            if not isinstance(lp, ast.For) or not isinstance(lp.target, ast.Name):
+                continue
+            sets = [c for c in ast.walk(lp) if isinstance(c, ast.Call) and dotted(c.func) == 'setattr' and len(c.args) == 3
+                    and norm(c.args[0]) == 'self' and norm(c.args[1]) == lp.target.id
+                    and any(isinstance(g, ast.Call) and dotted(g.func) == 'getattr' and len(g.args) >= 2
+                            and norm(g.args[0]) in ('parent', 'self.parent') and norm(g.args[1]) == lp.target.id
+                            for g in ast.walk(c.args[2]))]
+            if not sets:
+                continue
+            it = lp.iter
+            names_ = None
+            if isinstance(it, ast.Subscript) and isinstance(it.slice, ast.Slice) and norm(it.value).endswith('UNPACKABLES'):
+                base_ = list(ctx.fold.get_attr('tract_parse', 'TractParser', 'UNPACKABLES'))
+                lo_ = ctx.fold.eval(it.slice.lower, {}, m.module.name) if it.slice.lower is not None else None
+                hi_ = ctx.fold.eval(it.slice.upper, {}, m.module.name) if it.slice.upper is not None else None
+                if (lo_ is None or isinstance(lo_, int)) and (hi_ is None or isinstance(hi_, int)):
+                    names_ = base_[lo_:hi_]
+            else:
+                v_ = ctx.fold.eval(it, ctx.fold.func_env(m), m.module.name)
+                if isinstance(v_, (list, tuple)) and all(isinstance(x, str) for x in v_):
+                    names_ = list(v_)
+            if names_ is None:
+                ctx.undecided('COMMIT', 'TractParser attributes seeded from the parent (loop)', f"`{norm(it)}` does not fold")
+                continue
+            fr_ = common.freshness(sets[0].args[2])
+            for a_ in names_:
+                seeded[a_] = (norm(sets[0].args[2]), fr_, lp, m)
     seed_guard(ctx, seeded)
     if len(seeded) < 4:
         ctx.undecided('COMMIT', 'TractParser attributes seeded from the parent', f"only {len(seeded)} explicit seedings recognised")
